@@ -65,17 +65,27 @@ OPS = [
     ["for j in range(3):", "    Z2 = [i + j for i in range(3)]", "    mon.write(Z2[1])"],
     ["k = 0", "while k < 2:", "    k += 1", "    Y = [k]", "    Y.append(x)", "    mon.write(Y[-1])"],
     ["H = mk(x)", "mon.write(H[1])", "H.append(3)"],
+    # 29.. : an earlier arm appends constants, a LATER sibling arm walks the list by its length; a limit that must be
+    # taken once, inside an enclosing loop that also first-assigns a variable; lists whose elements own memory
+    ["if x > 5:", "    L.append(7)", "    L.append(8)", "elif x > 0:", "    for i in range(len(L)):", "        mon.write(L[i])", "else:", "    mon.write(L[len(L) - 1])"],
+    ["if x < 0:", "    L.append(7)", "    L.append(8)", "    L.append(9)", "else:", "    mon.write(L[len(L) - 1])", "    mon.write(L[-len(L)])"],
+    ["M3 = [i * 2 for i in range(len(L))]", "for j in range(1):", "    nv = j", "    for i in range(len(L)):", "        if len(L) < 30:", "            L.append(i)", "        x = x + M3[i]"],
+    ["k = 0", "while k < 2:", "    k += 1", "    nw = k", "    for i in range(len(L)):", "        if len(L) < 40:", "            L.append(L[i])"],
+    ['N2 = ["x", "y", "z"]', "N = N2", "mon.write(N[0])", "mon.write(len(N))"],
+    ["N = labels(x)", "mon.write(N[0])", "mon.write(N[-1])"],
+    ['N.append("q")', "mon.write(N[-1])", "mon.write(len(N))"],
+    ["NN = N", "mon.write(NN[1])", 'N = ["r", "s"]', "mon.write(NN[1])"],
 ]
-DEFS = ["def mk(n):", "    return [n, n + 1]"]
+DEFS = ["def mk(n):", "    return [n, n + 1]", "def labels(n):", '    return ["a" + str(n), "b", "c"]']
 CORE = [0, 2, 3, 5, 9, 10, 11, 12, 13]
-CORE3 = [0, 1, 2, 3, 5, 9, 10, 11, 12, 13, 18, 20, 21, 23, 25, 28]  # thorough: all k = 3 histories over these
+CORE3 = [0, 1, 2, 3, 5, 9, 10, 11, 12, 13, 18, 20, 21, 23, 25, 28, 29, 31, 33, 34]  # thorough: all k = 3 histories over these
 OBS = ["mon.write(x)", "mon.write(len(L))", "mon.write(L[0])", "mon.write(L[-1])"]
 
 
 def build(init_i: int, seq: Sequence[int], placement: str) -> dict:
     init = INITS[init_i]
     ops = [ln for i in seq for ln in OPS[i]]
-    head = ['a = analog_read("A0")', "x = a", 's = "s"']
+    head = ['a = analog_read("A0")', "x = a", 's = "s"', 'N = ["ab", "cd"]']
     if placement == "setup":
         src = common.script(head + init + ops + OBS, None, prologue=PRO, defs=DEFS)
         passes = 0
@@ -98,8 +108,9 @@ def generate(tier: str, only=None) -> Iterator[dict]:
             seqs += list(itertools.product(CORE, repeat=4)) if init_i < 3 else []
         else:
             seqs = list(itertools.chain.from_iterable(itertools.product(range(n), repeat=r) for r in range(0, 2)))
-            seqs += list(itertools.product(range(n), repeat=2)) if init_i in (0, 1, 4, 6, 7) else []
-            seqs += list(itertools.product(CORE[:6], repeat=3)) if init_i in (0, 1) else []
+            seqs += list(itertools.product(range(n), repeat=2)) if init_i in (0, 7) else []
+            seqs += list(itertools.product(CORE3, repeat=2)) if init_i in (1, 4, 6) else []
+            seqs += list(itertools.product(CORE[:6], repeat=3)) if init_i == 0 else []
         seen = set()
         for seq in seqs:
             if seq in seen:
@@ -160,7 +171,7 @@ def main(tier: str, seed: int, only=None) -> int:
     report = Report(ID, LEVEL, tier, seed)
     common.drive(report, MOD, generate(tier, only), opts={"sanitize": True, "host_timeout": 5.0}, batch_size=40,
                  bad=("violation", "transpile_crash", "transpile_timeout"))
-    report.bounds = {"inits": len(INITS), "ops": len(OPS), "sequences": "quick: all k<=1, all k=2 for 5 inits, k=3 over a 6-op core for 2 inits; thorough: all k<=2, k=3 over a 16-op core, k=4 over a 9-op core for 3 inits", "placements": "setup / loop / shared", "passes": 4}
+    report.bounds = {"inits": len(INITS), "ops": len(OPS), "sequences": "quick: all k<=1, all k=2 for 2 inits and over a 20-op core for 3 more, k=3 over a 6-op core for 1 init; thorough: all k<=2, k=3 over a 16-op core, k=4 over a 9-op core for 3 inits", "placements": "setup / loop / shared", "passes": 4}
     report.add_sample({"script": build(4, (9, 0), "shared")["src"].splitlines()[6:]})
     return report.finish(
         rule="every history of the bounded alphabet in three placements, firmware built with ASan+UBSan and an interposed allocator, compared with CPython; distinct = distinct firmware texts",
